@@ -225,7 +225,7 @@ func (r *aliveRun) oneBlock(dt int64) (err error) {
 func obsKey(o map[string]any) string {
 	c := map[string]any{}
 	for k, v := range o {
-		if k != "h" && k != "now" {
+		if k != "h" && k != "now" && k != "graceStore" { // graceStore is an internal store (diagnostics only)
 			c[k] = v
 		}
 	}
@@ -284,15 +284,17 @@ func TestDriveAlive(t *testing.T) {
 			case "Blocks":
 				// every block is executed; consecutive blocks after which the observation is identical are recorded as one run
 				from, t0 := r.h, r.now
-				var berr error
 				runLen := 0
 				key := ""
+				var last map[string]any
 				flush := func() {
 					if runLen > 0 {
-						emit("Blocks", map[string]any{"n": runLen, "dt": a.Dt}, "ok", nil, map[string]any{"from": int(from), "to": int(from) + runLen - 1, "t0": int(t0)})
+						em.Emit(map[string]any{"h": h.H, "i": idx, "act": "Blocks", "args": map[string]any{"n": runLen, "dt": a.Dt}, "res": "ok", "err": "",
+							"obs": last, "comma": w.comma, "from": int(from), "to": int(from) + runLen - 1, "t0": int(t0)})
+						idx++
 					}
 				}
-				var last map[string]any
+				var berr error
 				for b := 0; b < a.N; b++ {
 					bh, bt := r.h, r.now
 					if berr = r.oneBlock(a.Dt); berr != nil {
@@ -301,24 +303,15 @@ func TestDriveAlive(t *testing.T) {
 					o := r.observe()
 					k := obsKey(o)
 					if runLen > 0 && k != key {
-						// close the previous run with the observation it ended in
-						saveH, saveNow, saveCtx := r.h, r.now, r.ctx
-						_ = saveCtx
-						ev := map[string]any{"h": h.H, "i": idx, "act": "Blocks", "args": map[string]any{"n": runLen, "dt": a.Dt}, "res": "ok", "err": "",
-							"obs": last, "comma": w.comma, "from": int(from), "to": int(from) + runLen - 1, "t0": int(t0)}
-						em.Emit(ev)
-						idx++
+						flush()
 						from, t0, runLen = bh, bt, 0
-						_, _ = saveH, saveNow
 					}
 					key, last = k, o
 					runLen++
 				}
+				flush()
 				if berr != nil {
-					flush()
 					emit("Blocks", map[string]any{"n": 0, "dt": a.Dt}, "fail", berr, map[string]any{"from": int(r.h), "to": int(r.h) - 1, "t0": int(r.now)})
-				} else {
-					flush()
 				}
 			case "KeepAlive":
 				v := w.e.Vals[a.V-1]
